@@ -501,9 +501,19 @@ struct Runner {
     check_queries(s, V, seed, npts, nranks, invalid);
   }
 
+  // a freshly constructed sketch reports the k it was constructed with (all generated k are in the documented domain)
+  void check_config(int s) {
+    ++c07_nchecks;
+    if (sk[s].get_k() != kreq[s]) {
+      const std::string msg = std::string(fam_name(F)) + " sketch constructed with k=" + std::to_string(kreq[s]) + " reports get_k() = " + std::to_string(sk[s].get_k());
+      if (F == F_REQ && kreq[s] >= 256) defer("config-k", "C07|req|constructor|k>=256-truncated-to-8-bits", msg);
+      else vf::fail("config-k", msg);
+    }
+  }
   void recreate(int s) {
     sk[s] = SkOf<F, T, C>::make(kreq[s], hra[s]);
     model[s].clear();
+    check_config(s);
   }
 
   // ---------------------------------------------------------------- the history
@@ -519,7 +529,7 @@ struct Runner {
       sk.push_back(SkOf<F, T, C>::make(kreq[s], hra[s]));
       model.emplace_back();
     }
-    for (int s = 0; s < NS; ++s) check(s, "construction", seed + s, 0, 0, false);
+    for (int s = 0; s < NS; ++s) { check_config(s); check(s, "construction", seed + s, 0, 0, false); }
     uint64_t opno = 0;
     for (const Op& op : cs.ops) {
       ++opno;
@@ -624,6 +634,34 @@ void dispatch(const Case& cs, bool every) {
 void prop_main(const Case& cs) { ChecksFlush f; dispatch(cs, true); }
 void prop_large(const Case& cs) { ChecksFlush f; dispatch(cs, false); }
 
+// A NaN rank is not a rank in [0,1]: get_quantile must refuse it like any other rank outside the interval. Kept in its
+// own sub-property, run last and by worker 0 only: on the pinned tree the query is not refused and converts NaN to an
+// integer (undefined behaviour, UBSan stops the process), which would otherwise end the worker's whole search.
+template <typename Sk> void nan_rank_one(Sk sk, const Case& cs) {
+  vf::Rng r(static_cast<uint64_t>(cs.get("seed", 1)));
+  const uint64_t n = 1 + static_cast<uint64_t>(cs.get("n", 1)) % 500;
+  for (uint64_t i = 0; i < n; ++i) sk.update(static_cast<float>(r.below(1000)));
+  const double nan = std::numeric_limits<double>::quiet_NaN();
+  for (int incl = 0; incl <= 1; ++incl) {
+    bool refused = false, answered = false;
+    try { (void)sk.get_quantile(nan, incl != 0); answered = true; } catch (const std::invalid_argument&) { refused = true; }
+    VF_CHECK_K(refused && !answered, "nan-rank-refused", "C07|all|get_quantile|NaN-rank-answered", "get_quantile(NaN, inclusive=" << incl << ") was answered instead of throwing invalid_argument");
+  }
+}
+void prop_nanrank(const Case& cs) {
+  vf::own_randomness(static_cast<uint64_t>(cs.get("seed", 1)));
+  const int fam = static_cast<int>(((cs.get("fam", 0) % 3) + 3) % 3);
+  const uint16_t k = k_from(fam, static_cast<uint64_t>(cs.get("k0", 0)));
+  vf::label(std::string("fam:") + fam_name(fam));
+  if (fam == F_KLL) nan_rank_one(kll_sketch<float>(k), cs);
+  else if (fam == F_REQ) nan_rank_one(req_sketch<float>(k, cs.get("hra", 1) & 1), cs);
+  else nan_rank_one(quantiles_sketch<float>(k), cs);
+}
+rc::Gen<Case> gen_nanrank() {
+  using namespace vf;
+  return make_case({{"fam", range(0, 2)}, {"seed", range(1, 1 << 30)}, {"hra", range(0, 1)}, {"k0", range(0, 15)}, {"n", range(0, 499)}}, rc::gen::just(std::vector<Op>{}));
+}
+
 // ------------------------------------------------------------------ generators
 rc::Gen<int64_t> ksel_small() { return rc::gen::weightedOneOf<int64_t>({{6, vf::range(0, 5)}, {3, vf::range(6, 11)}, {1, vf::range(12, 15)}}); }
 
@@ -681,6 +719,7 @@ int main(int argc, char** argv) {
   std::vector<vf::Sub> subs;
   subs.push_back({"main", gen_main, prop_main, 1.0});
   subs.push_back({"large", gen_large, prop_large, 0.04, 100});
+  if (vf::env("VF_WORKER", "0") == "0" || argc >= 3) subs.push_back({"nanrank", gen_nanrank, prop_nanrank, 0.004, 100});
   return vf::main_driver(argc, argv, "C07", "c07_quantiles",
                          "case = family (KLL / REQ HRA|LRA / classic) x item type and comparator (float less, double greater, int64 less, string "
                          "length-then-lexicographic) x k per slot (equal or unequal) x op history over 4 live sketches (pattern chunks, edge-value "
